@@ -18,6 +18,28 @@
 //   Simp  : s, out{t,d}, flip, pts[{p, sn}]
 //   Tf    : cls, T, pts[{p, q, up, upx, upb, dn, dnx, dnb, du, dux, dub}],
 //                   dirs[{d, r, ru, rux, rub, rd, rdx, rdb}]
+// Matrix utilities (orange/MatrixUtils) on integer inputs (mode mat), results as nearest integers
+// with "x" (every value an exact integer) and "b" (within 1e-9) flags:
+//   MDet   : ty(int|real), A, det, tr, x
+//   MMul   : ty, n(3|4), A, B, AB = gemm(A,B), AtB = gemm(transpose,A,B), x
+//   MVec   : ty, A, v, y, al, be, r = gemv(al,A,v,be,y), rt = gemv(transpose,...), s = gemv(A,v),
+//            st = gemv(transpose,A,v), x
+//   MTr    : A, T = make_transpose(A), x
+//   MRot   : ax, q, R = make_rotation(Axis ax, Turn{q/4}), x;  with O: make_rotation(ax, turn, O)
+//   MRotAx : n (integer axis, |n| = m), m, q (quarter turns 0..2), R = m^2 make_rotation(n/m, q/4), b
+//   MOrtho : R, den (R R^T = den^2 I), L (lower triangular, positive diagonal), M = L R (the input),
+//            out = den * orthonormalize(M), b
+// Transform algebra (mode tfx); a transform operand is {cls: No|Translation|Transformation, T}:
+//   TfComp : L, R, out (class of apply_transform(L, R)), pts[{p, m, q, up,upx,upb, dn,dnx,dnb}],
+//            dirs[{d, r, ru,rux,rub}]     (m = R(p), q = L(m): the harness' lattice images)
+//   TfInv  : T, via (calc_inverse|from_inverse|variant), pts[{p, q, iu,iux,iub, id,idx,idb}]
+//   TfSimp : op (simplify|promote), T, out, pts[{p, q, up, upx, upb}]
+//   TfTol  : k (rotation angle = k * eps / 4 about ax), ax, out, within (every probe point of
+//            unit length moved by <= eps between the given and the simplified transform)
+// SignedPermutation (mode sperm):
+//   SPerm  : ax[[sign, axis]x3], ok, val, perm, rt, up (matrix of rotate_up), dn (of rotate_down),
+//            tup, tdn (transform_up / transform_down)
+//   SPermQ : ax, q, ok, val, up          make_permutation(Axis ax, QuarterTurn{q})
 #include <array>
 #include <cmath>
 #include <cstdlib>
@@ -34,7 +56,9 @@
 #include "orange/surf/SurfaceSimplifier.hh"
 #include "orange/surf/VariantSurface.hh"
 #include "orange/surf/detail/AllSurfaces.hh"
+#include "corecel/math/Turn.hh"
 #include "orange/transform/SignedPermutation.hh"
+#include "orange/transform/TransformSimplifier.hh"
 #include "orange/transform/Transformation.hh"
 #include "orange/transform/Translation.hh"
 #include "orange/transform/VariantTransform.hh"
@@ -930,6 +954,555 @@ class Emitter
 };
 
 //---------------------------------------------------------------------------//
+// Matrix utilities, transform algebra, signed permutations (integer inputs)
+//---------------------------------------------------------------------------//
+struct Flags
+{
+    bool exact{true};
+    bool bracket{true};
+};
+
+int near_int(double c, Flags* f)
+{
+    if (!(std::fabs(c) < 1e9))
+    {
+        f->exact = f->bracket = false;
+        return 1 << 30;
+    }
+    double n = std::nearbyint(c);
+    f->exact = f->exact && (n == c);
+    f->bracket = f->bracket && (std::fabs(n - c) <= 1e-9);
+    return static_cast<int>(n);
+}
+
+template<class T, size_type N>
+json jmat(SquareMatrix<T, N> const& m, Flags* f, double scale = 1)
+{
+    json out = json::array();
+    for (size_type i = 0; i != N; ++i)
+    {
+        json row = json::array();
+        for (size_type j = 0; j != N; ++j)
+            row.push_back(near_int(static_cast<double>(m[i][j]) * scale, f));
+        out.push_back(row);
+    }
+    return out;
+}
+
+template<class T, size_type N>
+json jvec(Array<T, N> const& v, Flags* f, double scale = 1)
+{
+    json out = json::array();
+    for (size_type i = 0; i != N; ++i)
+        out.push_back(near_int(static_cast<double>(v[i]) * scale, f));
+    return out;
+}
+
+template<class T, size_type N>
+SquareMatrix<T, N> random_matrix(Rng& rng, int m)
+{
+    SquareMatrix<T, N> a;
+    for (size_type i = 0; i != N; ++i)
+        for (size_type j = 0; j != N; ++j)
+            a[i][j] = static_cast<T>(rint(rng, -m, m));
+    return a;
+}
+
+template<class T>
+SquareMatrix<T, 3> from_int(IM3 const& R)
+{
+    SquareMatrix<T, 3> a;
+    for (int i = 0; i < 3; ++i)
+        for (int j = 0; j < 3; ++j)
+            a[i][j] = static_cast<T>(R[i][j]);
+    return a;
+}
+
+template<class T>
+void mat_records_3(verif::NdjsonWriter& w, Rng& rng, char const* ty, SquareMatrix<T, 3> const& a)
+{
+    using Vec = Array<T, 3>;
+    Flags none;
+    {
+        Flags f;
+        json rec{{"e", "MDet"}, {"ty", ty}, {"A", jmat(a, &none)}};
+        rec["det"] = near_int(static_cast<double>(determinant(a)), &f);
+        rec["tr"] = near_int(static_cast<double>(trace(a)), &f);
+        rec["x"] = f.exact;
+        w(rec);
+    }
+    {
+        Flags f;
+        auto b = random_matrix<T, 3>(rng, 3);
+        json rec{{"e", "MMul"}, {"ty", ty}, {"n", 3}, {"A", jmat(a, &none)}, {"B", jmat(b, &none)}};
+        rec["AB"] = jmat(gemm(a, b), &f);
+        rec["AtB"] = jmat(gemm(matrix::transpose, a, b), &f);
+        rec["x"] = f.exact;
+        w(rec);
+    }
+    {
+        Flags f;
+        Vec v{T(rint(rng, -4, 4)), T(rint(rng, -4, 4)), T(rint(rng, -4, 4))};
+        Vec y{T(rint(rng, -4, 4)), T(rint(rng, -4, 4)), T(rint(rng, -4, 4))};
+        T al = T(rint(rng, -3, 3)), be = T(rint(rng, -3, 3));
+        json rec{{"e", "MVec"}, {"ty", ty}, {"A", jmat(a, &none)}, {"v", jvec(v, &none)},
+                 {"y", jvec(y, &none)}, {"al", static_cast<int>(al)}, {"be", static_cast<int>(be)}};
+        rec["r"] = jvec(gemv(al, a, v, be, y), &f);
+        rec["rt"] = jvec(gemv(matrix::transpose, al, a, v, be, y), &f);
+        rec["s"] = jvec(gemv(a, v), &f);
+        rec["st"] = jvec(gemv(matrix::transpose, a, v), &f);
+        rec["x"] = f.exact;
+        w(rec);
+    }
+}
+
+void run_mat(std::string const& path, std::uint64_t seed, int count)
+{
+    verif::NdjsonWriter w(path);
+    Rng rng(seed);
+    auto sperms = all_signed_perms();
+    std::vector<IM3> special = sperms;
+    for (int den : {5, 13, 3, 7})
+        for (auto const& pr : pythagorean(den))
+            special.push_back(pr.first);
+    Flags none;
+
+    // determinant / trace / gemm / gemv on the special matrices and on random ones
+    for (auto const& R : special)
+    {
+        mat_records_3<int>(w, rng, "int", from_int<int>(R));
+        mat_records_3<real_type>(w, rng, "real", from_int<real_type>(R));
+    }
+    for (int c = 0; c < count; ++c)
+    {
+        int m = 1 + c % 4;
+        mat_records_3<int>(w, rng, "int", random_matrix<int, 3>(rng, m));
+        mat_records_3<real_type>(w, rng, "real", random_matrix<real_type, 3>(rng, m));
+        {
+            Flags f;
+            auto a = random_matrix<real_type, 4>(rng, m);
+            auto b = random_matrix<real_type, 4>(rng, 3);
+            json rec{{"e", "MMul"}, {"ty", "real"}, {"n", 4}, {"A", jmat(a, &none)}, {"B", jmat(b, &none)}};
+            rec["AB"] = jmat(gemm(a, b), &f);
+            rec["AtB"] = jmat(gemm(matrix::transpose, a, b), &f);
+            rec["x"] = f.exact;
+            w(rec);
+        }
+        {
+            Flags f;
+            auto a = random_matrix<real_type, 3>(rng, 4);
+            json rec{{"e", "MTr"}, {"A", jmat(a, &none)}};
+            rec["T"] = jmat(make_transpose(a), &f);
+            rec["x"] = f.exact;
+            w(rec);
+        }
+    }
+
+    // quarter-turn rotations about the cartesian axes, alone and applied to a matrix
+    for (int ax = 0; ax < 3; ++ax)
+    {
+        for (int q = -8; q <= 8; ++q)
+        {
+            Flags f;
+            json rec{{"e", "MRot"}, {"ax", ax}, {"q", q}};
+            rec["R"] = jmat(make_rotation(to_axis(ax), Turn{real_type(q) / 4}), &f);
+            rec["x"] = f.exact;
+            w(rec);
+            for (int c = 0; c < 2; ++c)
+            {
+                Flags g;
+                IM3 O = (c == 0) ? special[rint(rng, 0, int(special.size()) - 1)]
+                                 : IM3{{{rint(rng, -3, 3), rint(rng, -3, 3), rint(rng, -3, 3)},
+                                        {rint(rng, -3, 3), rint(rng, -3, 3), rint(rng, -3, 3)},
+                                        {rint(rng, -3, 3), rint(rng, -3, 3), rint(rng, -3, 3)}}};
+                json r2{{"e", "MRot"}, {"ax", ax}, {"q", q}, {"O", json::array({jv(O[0]), jv(O[1]), jv(O[2])})}};
+                r2["R"] = jmat(make_rotation(to_axis(ax), Turn{real_type(q) / 4}, from_int<real_type>(O)), &g);
+                r2["x"] = g.exact;
+                w(r2);
+            }
+        }
+    }
+
+    // rotations about an arbitrary (integer-direction) axis by 0, 1, 2 quarter turns: m^2 R is an
+    // integer matrix
+    for (I3 n : {I3{1, 0, 0}, I3{0, -1, 0}, I3{0, 0, 1}, I3{0, 0, -1}, I3{3, 4, 0}, I3{0, -3, 4},
+                 I3{-4, 0, 3}, I3{1, 2, 2}, I3{2, -1, 2}, I3{-2, -2, 1}, I3{2, 3, 6}, I3{-6, 2, 3},
+                 I3{0, 5, 12}, I3{4, 4, 7}, I3{1, 4, 8}})
+    {
+        int m2 = n[0] * n[0] + n[1] * n[1] + n[2] * n[2];
+        int m = static_cast<int>(std::lround(std::sqrt(double(m2))));
+        Real3 ax{real_type(n[0]) / m, real_type(n[1]) / m, real_type(n[2]) / m};
+        for (int q = 0; q <= 2; ++q)
+        {
+            Flags f;
+            json rec{{"e", "MRotAx"}, {"n", jv(n)}, {"m", m}, {"q", q}};
+            rec["R"] = jmat(make_rotation(ax, Turn{real_type(q) / 4}), &f, double(m2));
+            rec["b"] = f.bracket;
+            w(rec);
+        }
+    }
+
+    // orthonormalize: M = L R with L lower triangular (positive diagonal) must give back R / den
+    for (int c = 0; c < count; ++c)
+    {
+        IM3 R;
+        int den = 1;
+        if (c % 2 == 0)
+            R = sperms[rint(rng, 0, 47)];
+        else
+        {
+            static int const dens[] = {5, 13, 3, 7};
+            auto py = pythagorean(dens[rint(rng, 0, 3)]);
+            auto const& pr = py[rint(rng, 0, int(py.size()) - 1)];
+            R = matmul(sperms[rint(rng, 0, 47)], pr.first);
+            den = pr.second;
+        }
+        IM3 L{};
+        for (int i = 0; i < 3; ++i)
+            for (int j = 0; j <= i; ++j)
+                L[i][j] = (i == j) ? rint(rng, 1, 4) : rint(rng, -3, 3);
+        if (c % 5 == 0)
+            L = IM3{{{1, 0, 0}, {0, 1, 0}, {0, 0, 1}}};
+        IM3 M = matmul(L, R);
+        auto mat = from_int<real_type>(M);
+        orthonormalize(&mat);
+        Flags f;
+        json rec{{"e", "MOrtho"},
+                 {"R", json::array({jv(R[0]), jv(R[1]), jv(R[2])})},
+                 {"den", den},
+                 {"L", json::array({jv(L[0]), jv(L[1]), jv(L[2])})},
+                 {"M", json::array({jv(M[0]), jv(M[1]), jv(M[2])})}};
+        rec["out"] = jmat(mat, &f, double(den));
+        rec["b"] = f.bracket;
+        w(rec);
+    }
+    std::cout << w.count() << std::endl;
+}
+
+//---------------------------------------------------------------------------//
+struct Operand
+{
+    std::string cls;
+    ITrans T;
+    VariantTransform v;
+};
+
+char const* class_of(VariantTransform const& v)
+{
+    if (std::holds_alternative<NoTransformation>(v))
+        return "No";
+    if (std::holds_alternative<Translation>(v))
+        return "Translation";
+    return "Transformation";
+}
+
+json joperand(Operand const& o)
+{
+    return json{{"cls", o.cls}, {"T", jtrans(o.T)}};
+}
+
+I3 image(ITrans const& T, I3 const& p)
+{
+    I3 q = matvec(T.R, p);
+    for (int i = 0; i < 3; ++i)
+        q[i] = q[i] / T.den + T.t[i];
+    return q;
+}
+
+struct UpDown
+{
+    Real3 up;
+    Real3 down;
+    Real3 rot;
+};
+
+void put_rounded(json& e, char const* key, Real3 const& v)
+{
+    Rounded r = rounded(v);
+    e[key] = r.v;
+    e[std::string(key) + "x"] = r.exact;
+    e[std::string(key) + "b"] = r.bracket;
+}
+
+void run_tfx(std::string const& path, std::uint64_t seed, int count)
+{
+    verif::NdjsonWriter w(path);
+    Rng rng(seed);
+    auto sperms = all_signed_perms();
+
+    // tmul: the translation is a multiple of this (so that images under an outer transform of
+    // denominator tmul stay on the lattice)
+    auto make_operand = [&](int kind, int tmul) {
+        Operand o;
+        I3 t{rint(rng, -3, 3) * tmul, rint(rng, -3, 3) * tmul, rint(rng, -3, 3) * tmul};
+        if (kind == 0)
+        {
+            o.cls = "No";
+            o.T = {identity, 1, {0, 0, 0}};
+            o.v = NoTransformation{};
+        }
+        else if (kind == 1)
+        {
+            o.cls = "Translation";
+            o.T = {identity, 1, t};
+            o.v = Translation{to_real(t)};
+        }
+        else
+        {
+            o.cls = "Transformation";
+            if (kind == 2)
+                o.T = {sperms[rint(rng, 0, 47)], 1, t};
+            else
+            {
+                static int const dens[] = {5, 13, 3, 7};
+                auto py = pythagorean(dens[rint(rng, 0, 3)]);
+                auto const& pr = py[rint(rng, 0, int(py.size()) - 1)];
+                o.T = {matmul(sperms[rint(rng, 0, 47)], pr.first), pr.second, t};
+            }
+            if (rint(rng, 0, 5) == 0)
+                o.T.t = {0, 0, 0};
+            o.v = make_transformation(o.T);
+        }
+        return o;
+    };
+
+    std::vector<I3> base = cube(2);
+    auto probe_points = [&](int scale) {
+        std::vector<I3> pts = sample(rng, base, 8);
+        pts.push_back({0, 0, 0});
+        pts.push_back({1, 0, 0});
+        pts.push_back({0, 1, 0});
+        pts.push_back({0, 0, 1});
+        for (auto& p : pts)
+            p = {p[0] * scale, p[1] * scale, p[2] * scale};
+        return pts;
+    };
+
+    for (int c = 0; c < count; ++c)
+    {
+        // ---- composition: every pair of operand kinds
+        for (int kl = 0; kl < 4; ++kl)
+        {
+            for (int kr = 0; kr < 4; ++kr)
+            {
+                if (kl == 3 && kr == 3 && c % 2)
+                    continue;  // keep products of two Pythagorean rotations rare (large integers)
+                Operand L = make_operand(kl, 1);
+                Operand R = make_operand(kr, L.T.den);
+                VariantTransform out = apply_transform(L.v, R.v);
+                json rec{{"e", "TfComp"}, {"L", joperand(L)}, {"R", joperand(R)}, {"out", class_of(out)}};
+                json jp = json::array(), jd = json::array();
+                for (auto const& p : probe_points(L.T.den * R.T.den))
+                {
+                    I3 m = image(R.T, p);
+                    I3 q = image(L.T, m);
+                    json e{{"p", jv(p)}, {"m", jv(m)}, {"q", jv(q)}};
+                    Real3 up = std::visit([&](auto const& t) { return Real3(t.transform_up(to_real(p))); }, out);
+                    put_rounded(e, "up", up);
+                    put_rounded(e, "dn", std::visit([&](auto const& t) { return Real3(t.transform_down(to_real(q))); }, out));
+                    jp.push_back(e);
+                    ITrans Rr = R.T, Lr = L.T;
+                    Rr.t = {0, 0, 0};
+                    Lr.t = {0, 0, 0};
+                    I3 r = image(Lr, image(Rr, p));
+                    json d{{"d", jv(p)}, {"r", jv(r)}};
+                    put_rounded(d, "ru", std::visit([&](auto const& t) { return Real3(t.rotate_up(to_real(p))); }, out));
+                    jd.push_back(d);
+                }
+                rec["pts"] = jp;
+                rec["dirs"] = jd;
+                w(rec);
+            }
+        }
+
+        // ---- inverses
+        for (int k = 1; k < 4; ++k)
+        {
+            Operand A = make_operand(k, 1);
+            std::vector<std::pair<std::string, VariantTransform>> invs;
+            invs.push_back({"variant", calc_inverse(A.v)});
+            if (auto const* tf = std::get_if<Transformation>(&A.v))
+            {
+                invs.push_back({"calc_inverse", tf->calc_inverse()});
+                invs.push_back({"from_inverse", Transformation::from_inverse(tf->rotation(), tf->translation())});
+            }
+            else if (auto const* tl = std::get_if<Translation>(&A.v))
+            {
+                invs.push_back({"calc_inverse", tl->calc_inverse()});
+            }
+            for (auto const& iv : invs)
+            {
+                json rec{{"e", "TfInv"}, {"T", joperand(A)}, {"via", iv.first}, {"out", class_of(iv.second)}};
+                json jp = json::array();
+                for (auto const& p : probe_points(A.T.den))
+                {
+                    I3 q = image(A.T, p);
+                    json e{{"p", jv(p)}, {"q", jv(q)}};
+                    put_rounded(e, "iu", std::visit([&](auto const& t) { return Real3(t.transform_up(to_real(q))); }, iv.second));
+                    put_rounded(e, "id", std::visit([&](auto const& t) { return Real3(t.transform_down(to_real(p))); }, iv.second));
+                    jp.push_back(e);
+                }
+                rec["pts"] = jp;
+                w(rec);
+            }
+        }
+
+        // ---- simplification (relative tolerance 1e-3) and promotion of a translation
+        TransformSimplifier simplify(Tolerance<>::from_relative(1e-3));
+        for (int k = 0; k < 5; ++k)
+        {
+            Operand A = make_operand(std::min(k, 3), 1);
+            if (k == 4)
+            {
+                // a Transformation whose rotation is the identity: must behave as its translation
+                A.cls = "Transformation";
+                A.T = {identity, 1, {rint(rng, -3, 3), rint(rng, -1, 1), 0}};
+                if (c % 3 == 0)
+                    A.T.t = {0, 0, 0};
+                A.v = make_transformation(A.T);
+            }
+            if (k == 1 && c % 3 == 0)
+            {
+                A.T.t = {0, 0, 0};
+                A.v = Translation{to_real(A.T.t)};
+            }
+            std::vector<std::pair<std::string, VariantTransform>> outs;
+            outs.push_back({"simplify", std::visit(simplify, A.v)});
+            if (auto const* tl = std::get_if<Translation>(&A.v))
+                outs.push_back({"promote", Transformation{*tl}});
+            for (auto const& o : outs)
+            {
+                json rec{{"e", "TfSimp"}, {"op", o.first}, {"T", joperand(A)}, {"out", class_of(o.second)}};
+                json jp = json::array();
+                for (auto const& p : probe_points(A.T.den))
+                {
+                    json e{{"p", jv(p)}, {"q", jv(image(A.T, p))}};
+                    put_rounded(e, "up", std::visit([&](auto const& t) { return Real3(t.transform_up(to_real(p))); }, o.second));
+                    jp.push_back(e);
+                }
+                rec["pts"] = jp;
+                w(rec);
+            }
+        }
+    }
+
+    // ---- simplification of tiny rotations: angle = k * eps / 4
+    {
+        real_type const eps = 1e-3;
+        TransformSimplifier simplify(Tolerance<>::from_relative(eps));
+        for (int ax = 0; ax < 3; ++ax)
+        {
+            for (int k : {0, 1, 2, 3, 5, 6, 8, 12, 20, 40, 100, 400, 4000})
+            {
+                real_type theta = k * eps / 4;
+                Transformation tf{make_rotation(to_axis(ax), Turn{theta / (2 * constants::pi)}),
+                                  Real3{real_type(k % 3), 0, real_type(k % 2)}};
+                VariantTransform out = simplify(tf);
+                bool within = true;
+                for (auto const& d : direction_pool())
+                {
+                    real_type norm = std::sqrt(real_type(d[0] * d[0] + d[1] * d[1] + d[2] * d[2]));
+                    Real3 p{d[0] / norm, d[1] / norm, d[2] / norm};
+                    Real3 a = tf.transform_up(p);
+                    Real3 b = std::visit([&](auto const& t) { return Real3(t.transform_up(p)); }, out);
+                    within = within && (distance(a, b) <= eps * (1 + 1e-6));
+                }
+                w(json{{"e", "TfTol"}, {"ax", ax}, {"k", k}, {"out", class_of(out)}, {"within", within}});
+            }
+        }
+    }
+    std::cout << w.count() << std::endl;
+}
+
+//---------------------------------------------------------------------------//
+json sperm_matrix(SignedPermutation const& sp, int which, Flags* f)
+{
+    // column j of the matrix = image of the unit vector e_j
+    SquareMatrixReal3 m;
+    for (int j = 0; j < 3; ++j)
+    {
+        Real3 e{0, 0, 0};
+        e[j] = 1;
+        Real3 r = which == 0   ? sp.rotate_up(e)
+                  : which == 1 ? sp.rotate_down(e)
+                  : which == 2 ? sp.transform_up(e)
+                               : sp.transform_down(e);
+        for (int i = 0; i < 3; ++i)
+            m[i][j] = r[i];
+    }
+    return jmat(m, f);
+}
+
+void run_sperm(std::string const& path)
+{
+    verif::NdjsonWriter w(path);
+    // every assignment of (sign, axis) to the three rows: 6^3 = 216 (only 24 are rotations)
+    for (int code = 0; code < 216; ++code)
+    {
+        int c = code;
+        SignedPermutation::SignedAxes axes;
+        json jax = json::array();
+        for (int i = 0; i < 3; ++i)
+        {
+            int a = c % 3;
+            int sg = (c / 3) % 2;
+            c /= 6;
+            axes[to_axis(i)] = {sg ? '-' : '+', to_axis(a)};
+            jax.push_back(json::array({sg ? -1 : 1, a}));
+        }
+        json rec{{"e", "SPerm"}, {"ax", jax}};
+        try
+        {
+            SignedPermutation sp{axes};
+            Flags f;
+            rec["ok"] = true;
+            rec["val"] = static_cast<int>(sp.value());
+            json back = json::array();
+            auto perm = sp.permutation();
+            for (int i = 0; i < 3; ++i)
+                back.push_back(json::array({perm[to_axis(i)].first == '-' ? -1 : 1,
+                                            to_int(perm[to_axis(i)].second)}));
+            rec["perm"] = back;
+            auto data = sp.data();
+            SignedPermutation again{SignedPermutation::StorageSpan{data.data(), 1}};
+            rec["rt"] = static_cast<int>(again.value());
+            rec["up"] = sperm_matrix(sp, 0, &f);
+            rec["dn"] = sperm_matrix(sp, 1, &f);
+            rec["tup"] = sperm_matrix(sp, 2, &f);
+            rec["tdn"] = sperm_matrix(sp, 3, &f);
+            rec["x"] = f.exact;
+        }
+        catch (std::exception const&)
+        {
+            rec["ok"] = false;
+        }
+        w(rec);
+    }
+    for (int ax = 0; ax < 3; ++ax)
+    {
+        for (int q = -6; q <= 9; ++q)
+        {
+            json rec{{"e", "SPermQ"}, {"ax", ax}, {"q", q}};
+            try
+            {
+                SignedPermutation sp = make_permutation(to_axis(ax), QuarterTurn{q});
+                Flags f;
+                rec["ok"] = true;
+                rec["val"] = static_cast<int>(sp.value());
+                rec["up"] = sperm_matrix(sp, 0, &f);
+                rec["x"] = f.exact;
+            }
+            catch (std::exception const&)
+            {
+                rec["ok"] = false;
+            }
+            w(rec);
+        }
+    }
+    std::cout << w.count() << std::endl;
+}
+
+//---------------------------------------------------------------------------//
 int usage()
 {
     std::cerr
@@ -937,6 +1510,9 @@ int usage()
            "  vsurf exh   <seed> <shard> <nshards> <stride> <gqstride> <scale> <out> [knobs]\n"
            "  vsurf rand  <seed> <count> <maxcoef> <scale> <out> [knobs]\n"
            "  vsurf tf    <seed> <den> <count> <out>\n"
+           "  vsurf mat   <seed> <count> <out>\n"
+           "  vsurf tfx   <seed> <count> <out>\n"
+           "  vsurf sperm <out>\n"
            "knobs: cube=<r> npts=<n> nraypts=<n> ndirs=<n> ntrans=<n> nxpts=<n> edge=<0|1>\n";
     return 2;
 }
@@ -1024,6 +1600,21 @@ int main(int argc, char** argv)
         Emitter em(argv[5], seed, Knobs{});
         em.transforms(std::atoi(argv[3]), std::atoi(argv[4]));
         std::cout << em.count() << std::endl;
+        return 0;
+    }
+    if (mode == "mat" && argc >= 5)
+    {
+        run_mat(argv[4], std::strtoull(argv[2], nullptr, 10), std::atoi(argv[3]));
+        return 0;
+    }
+    if (mode == "tfx" && argc >= 5)
+    {
+        run_tfx(argv[4], std::strtoull(argv[2], nullptr, 10), std::atoi(argv[3]));
+        return 0;
+    }
+    if (mode == "sperm" && argc >= 3)
+    {
+        run_sperm(argv[2]);
         return 0;
     }
     return usage();
